@@ -201,23 +201,77 @@ class SNum(Sym):
             a, b = b, a
         return f(a, b, k)
 
+    # ---- exact rational-function bookkeeping: a value computed with divisions remembers (numerator, denominator)
+    # polynomials so that contracts can state equalities cross-multiplied (no division in the VC)
+    def _fr(self):
+        fr = getattr(self, 'frac', None)
+        if fr is not None and not getattr(self, 'frac_abs', False):
+            return fr
+        return None
+
+    @staticmethod
+    def _frac_of(x):
+        if isinstance(x, SNum):
+            fr = x._fr()
+            if fr is not None:
+                return fr
+            if getattr(x, 'frac_abs', False):
+                return None
+            return (x, None)
+        if isinstance(x, (int, float, fractions.Fraction)) and not isinstance(x, bool):
+            return (lift(x), None)
+        return None
+
+    def _with_frac(self, res, o, op):
+        """propagate (num, den) through + - * when at least one operand carries a fraction"""
+        if not isinstance(res, SNum):
+            return res
+        if self._fr() is None and not (isinstance(o, SNum) and o._fr() is not None):
+            return res
+        fa, fb = SNum._frac_of(self), SNum._frac_of(o)
+        if fa is None or fb is None:
+            return res
+        (na, da), (nb, db) = fa, fb
+        one = SNum(z3.RealVal(1), 'real')
+        if op == 'mul':
+            n = na * nb
+            d = da if db is None else (db if da is None else da * db)
+        else:
+            sgn = 1 if op == 'add' else -1
+            if da is None and db is None:
+                return res
+            if da is not None and db is not None and z3.eq(da.t, db.t):
+                n, d = (na + nb if sgn == 1 else na - nb), da
+            else:
+                da1 = one if da is None else da
+                db1 = one if db is None else db
+                n = na * db1 + nb * da1 if sgn == 1 else na * db1 - nb * da1
+                d = da1 * db1
+        n2, d2 = SNum(n.t, n.kind), SNum(d.t, d.kind)
+        res.frac = (n2, d2)
+        return res
+
     def __add__(self, o):
-        return self._bin(o, lambda a, b, k: a + b if k is None else SNum(a + b, k))
+        return self._with_frac(self._bin(o, lambda a, b, k: a + b if k is None else SNum(a + b, k)), o, 'add')
 
     def __radd__(self, o):
-        return self._bin(o, lambda a, b, k: a + b if k is None else SNum(a + b, k), True)
+        return self._with_frac(self._bin(o, lambda a, b, k: a + b if k is None else SNum(a + b, k), True), o, 'add')
 
     def __sub__(self, o):
-        return self._bin(o, lambda a, b, k: a - b if k is None else SNum(a - b, k))
+        return self._with_frac(self._bin(o, lambda a, b, k: a - b if k is None else SNum(a - b, k)), o, 'sub')
 
     def __rsub__(self, o):
-        return self._bin(o, lambda a, b, k: a - b if k is None else SNum(a - b, k), True)
+        r = self._bin(o, lambda a, b, k: a - b if k is None else SNum(a - b, k), True)
+        if isinstance(r, SNum) and self._fr() is not None and isinstance(o, (int, float, fractions.Fraction, SNum)):
+            lo = lift(o) if not isinstance(o, SNum) else o
+            return lo._with_frac(r, self, 'sub') if isinstance(lo, SNum) else r
+        return r
 
     def __mul__(self, o):
-        return self._bin(o, lambda a, b, k: a * b if k is None else SNum(a * b, k))
+        return self._with_frac(self._bin(o, lambda a, b, k: a * b if k is None else SNum(a * b, k)), o, 'mul')
 
     def __rmul__(self, o):
-        return self._bin(o, lambda a, b, k: a * b if k is None else SNum(a * b, k), True)
+        return self._with_frac(self._bin(o, lambda a, b, k: a * b if k is None else SNum(a * b, k), True), o, 'mul')
 
     @staticmethod
     def _div(a, b, k):
@@ -232,11 +286,28 @@ class SNum(Sym):
         r.frac = (SNum(a, 'real'), SNum(b, 'real'))
         return r
 
+    def _div_frac(self, o, res, rev=False):
+        """(na/da) / (nb/db) = (na db)/(da nb) when the operands themselves carry fractions"""
+        if not isinstance(res, SNum):
+            return res
+        x, y = (o, self) if rev else (self, o)
+        fa, fb = SNum._frac_of(x), SNum._frac_of(y)
+        if fa is None or fb is None:
+            return res
+        (na, da), (nb, db) = fa, fb
+        n = na if db is None else na * db
+        d = nb if da is None else da * nb
+        res.frac = (SNum(n.t, n.kind), SNum(d.t, d.kind))
+        return res
+
     def __truediv__(self, o):
-        return self._bin(o, SNum._div)
+        r = self._div_frac(o, self._bin(o, SNum._div))
+        if isinstance(r, SNum) and getattr(self, 'norm_radicand', None) is not None and isinstance(o, (int, float)):
+            r.norm_radicand = self.norm_radicand          # value = sqrt(radicand) / constant
+        return r
 
     def __rtruediv__(self, o):
-        return self._bin(o, SNum._div, True)
+        return self._div_frac(o, self._bin(o, SNum._div, True), True)
 
     @staticmethod
     def _floordiv(a, b, k):
@@ -270,7 +341,11 @@ class SNum(Sym):
         return self._bin(o, SNum._mod, True)
 
     def __neg__(self):
-        return SNum(-self.t, self.kind)
+        r = SNum(-self.t, self.kind)
+        fr = self._fr()
+        if fr is not None:
+            r.frac = (SNum(-fr[0].t, fr[0].kind), fr[1])
+        return r
 
     def __pos__(self):
         return self
@@ -629,6 +704,24 @@ def _is_zero_poly(x):
         return z
     from . import poly
     return poly.is_zero(t)
+
+
+def frac_eq(a, b):
+    """a == b for values carrying exact (numerator, denominator) polynomials: n_a d_b == n_b d_a
+    (valid where the denominators are non-zero - a `requires` of the contract)"""
+    a, b = lift(a), lift(b)
+    fa, fb = SNum._frac_of(a), SNum._frac_of(b)
+    if fa is None or fb is None:
+        return a == b
+    (na, da), (nb, db) = fa, fb
+    one = SNum(z3.RealVal(1), 'real')
+    da, db = (one if da is None else da), (one if db is None else db)
+    return SNum(na.t, na.kind) * SNum(db.t, db.kind) == SNum(nb.t, nb.kind) * SNum(da.t, da.kind)
+
+
+def cfrac_eq(a, b):
+    a, b = to_complex(a), to_complex(b)
+    return frac_eq(a.re, b.re) & frac_eq(a.im, b.im)
 
 
 def to_complex(x):
